@@ -647,13 +647,16 @@ func (rs *runState) runShard(mode string, shard, nshards int, wall time.Duration
 		}
 		sig := fatalSig(stderr, res.exitDesc)
 		report := true
-		if sig == "cpu-budget-exceeded" {
-			// confirm in a fresh process
+		if sig == "cpu-budget-exceeded" || strings.Contains(sig, "out_of_memory") {
+			// exhaustion of a resource the worker shares between its cases (CPU seconds are per
+			// case, but a loaded machine stretches them; memory accumulates in a long-lived
+			// worker: run-time built types are never freed): confirm in a fresh process that
+			// runs this case alone
 			r2, _, _, _, st2 := rs.runOne(mode, tag+".confirm", []string{"-prop", rs.prop, "-mode", mode, "-seed", fmt.Sprint(rs.seed), "-tier", rs.tier, "-only", fmt.Sprintf("%s:%d", jsub, jidx)}, wall, "")
-			if !(r2.crashed && fatalSig(st2, r2.exitDesc) == "cpu-budget-exceeded") {
+			if !(r2.crashed && fatalSig(st2, r2.exitDesc) == sig) {
 				report = false
 				rs.mu.Lock()
-				rs.inconclusive = append(rs.inconclusive, fmt.Sprintf("%s: CPU budget overrun at %s#%d did not reproduce in a fresh process", mode, jsub, jidx))
+				rs.inconclusive = append(rs.inconclusive, fmt.Sprintf("%s: %s at %s#%d did not reproduce in a fresh process that ran the case alone", mode, sig, jsub, jidx))
 				rs.mu.Unlock()
 			}
 		}
